@@ -104,7 +104,7 @@ def run(item, ctx, tier, seed):
     blocks = [tuple(x) for x in item["blocks"]]
     pos, neg, vals = ot.concretise(blocks, "irregular", seed)
     T = ot.threshold_alphabet(vals)
-    T = [t for t in T]
+    T = [t for t in T] + [float("nan")]  # a NaN threshold is answered the same way in array and scalar calls
     shapes = [tuple(s) for s in b["shapes"]]
     for ci_, cfg in enumerate(ot.CFGS):
         for ep, en in [tuple(e) for e in b["easy"]]:
@@ -209,6 +209,23 @@ def run(item, ctx, tier, seed):
                     ctx.tick()
                     if ok4:
                         check_elementwise(ctx, case, r + "-after-in-place-shift", v4, buf, lambda t, r=r: getattr(s, r)(t))
+            # a default-constructed object (is_sorted=False) holds its own sorted copy: what the caller does to its
+            # arrays afterwards must not change the object's answers (sorted and unsorted inputs alike)
+            for order in ("sorted", "unsorted"):
+                ca = np.array(sorted(pos) if order == "sorted" else pos[::-1], dtype=float)
+                cb = np.array(sorted(neg) if order == "sorted" else neg[::-1], dtype=float)
+                so = Scores(ca, cb, nb_easy_pos=ep, nb_easy_neg=en, score_class=cfg[0], equal_class=cfg[1])
+                Tq = np.array([t for t in T if t == t])
+                before = (so.cm(Tq).matrix.copy(), np.asarray(so.pos).copy(), np.asarray(so.neg).copy())
+                if ca.size:
+                    ca[...] = -ca[::-1] + 3.0
+                if cb.size:
+                    cb[...] = cb[::-1] * 2.0 - 1.0
+                after = (so.cm(Tq).matrix, np.asarray(so.pos), np.asarray(so.neg))
+                ctx.tick()
+                if not all(np.array_equal(x, y) for x, y in zip(before, after)):
+                    ctx.fail("object-independent-of-callers-arrays-after-construction", dict(base, input_order=order),
+                             observed=[after[1], after[2]], expected=[before[1], before[2]])
             # the score arrays the caller passed to the constructor are the caller's: unchanged after everything above
             if pin_arr.tolist() != [float(v) for v in pos[::-1]] or nin_arr.tolist() != [float(v) for v in neg[::-1]]:
                 ctx.fail("caller-array-unchanged", dict(base, argument="constructor score arrays"),
